@@ -102,8 +102,12 @@ func genParserTrace(r *RNG, tier string, o ptOpts) *Trace {
 				op.F = lz.NoTrailingLiterals
 			}
 			t.Ops = append(t.Ops, op)
-			if r.Chance(0.02) {
-				t.Ops = append(t.Ops, Op{K: "WReset", Plan: genRPlan(r, n, po)})
+			if r.Chance(0.03) {
+				wr := Op{K: "WReset", Plan: genRPlan(r, n, po)}
+				if r.Chance(0.7) {
+					wr.N = 1 + r.Intn(n+1)
+				}
+				t.Ops = append(t.Ops, wr)
 			}
 		}
 	case x < o.wrapShare+o.bufShare:
